@@ -1,0 +1,83 @@
+//go:build verif
+
+// Contracts for package bucketteer (comment-only; read by /verif/vcgo, build tag verif).
+package bucketteer
+
+//@ func Hash
+//@   mode int
+//@   pure
+//@   trusted
+
+//@ func prefixToUint16
+//@   mode bv
+//@   ensures result == uint16(prefix[0]) + uint16(prefix[1])*256
+
+//@ func uint16ToPrefix
+//@   mode bv
+//@   ensures result[0] == byte(num) && result[1] == byte(num >> 8)
+
+// ---- writer ----
+
+//@ func (*Writer) Put
+//@   mode int
+//@   requires b.prefixToHashes != nil
+//@   modifies b.prefixToHashes
+//@   ensures len(b.prefixToHashes[int(sig[0]) + int(sig[1])*256]) == old(len(b.prefixToHashes[int(sig[0]) + int(sig[1])*256])) + 1
+//@   ensures b.prefixToHashes[int(sig[0]) + int(sig[1])*256][old(len(b.prefixToHashes[int(sig[0]) + int(sig[1])*256]))] == Hash(sig)
+//@   ensures forall q int :: 0 <= q && q < 65536 && q != int(sig[0]) + int(sig[1])*256 ==> b.prefixToHashes[q] == old(b.prefixToHashes[q])
+
+//@ func (*Writer) Has
+//@   mode int
+//@   requires b.prefixToHashes != nil
+//@   ensures result <==> exists i int :: 0 <= i && i < len(b.prefixToHashes[int(sig[0]) + int(sig[1])*256]) && b.prefixToHashes[int(sig[0]) + int(sig[1])*256][i] == Hash(sig)
+//@   loop 0 invariant forall i int :: 0 <= i && i < rangeidx0 ==> b.prefixToHashes[int(sig[0]) + int(sig[1])*256][i] != Hash(sig)
+
+// ---- reader ----
+
+//@ func readUint64Le
+//@   mode bv
+//@   requires reader != nil
+//@   ensures result1 == nil ==> 0 <= pos && pos + 8 <= fsize(reader)
+//@   ensures result1 == nil ==> forall j int :: 0 <= j && j < 8 ==> byte(result0 >> (8*uint(j))) == fbyte(reader, pos+j)
+//@   ensures result1 != nil ==> result1 != ErrNotFound && !isErr(result1, ErrNotFound)
+
+//@ func readHeaderSize
+//@   mode bv
+//@   requires reader != nil
+//@   ensures result1 == nil ==> 4 <= fsize(reader) && 0 <= result0 && result0 <= 4294967295
+//@   ensures result1 == nil ==> forall j int :: 0 <= j && j < 4 ==> byte(result0 >> (8*uint(j))) == fbyte(reader, j)
+
+//@ func searchEytzinger
+//@   mode int
+//@   fnpure getter
+//@   requires 0 <= max && max <= 1099511627776 && getter != nil
+//@   requires forall t int :: 0 <= t && t < max ==> res1(getter, t) != ErrNotFound
+//@   requires forall j, k int :: 1 <= k && k <= max && 1 <= j && j <= max && anc(j, 2*k) ==> res0(getter, j-1) < res0(getter, k-1)
+//@   requires forall j, k int :: 1 <= k && k <= max && 1 <= j && j <= max && anc(j, 2*k+1) ==> res0(getter, j-1) > res0(getter, k-1)
+//@   ensures result1 == nil ==> result0 == x && exists t int :: 0 <= t && t < max && res1(getter, t) == nil && res0(getter, t) == x
+//@   ensures result1 == ErrNotFound ==> forall t int :: 0 <= t && t < max ==> res0(getter, t) != x
+//@   ensures result1 != nil && result1 != ErrNotFound ==> exists t int :: 0 <= t && t < max && res1(getter, t) == result1
+//@   use forall t int :: ancRoot(t)
+//@   loop 0 invariant 0 <= index
+//@   loop 0 invariant forall t int :: 1 <= t && t <= max && res0(getter, t-1) == x ==> anc(t, index+1)
+//@   loop 0 use forall t int :: t > index+1 ==> ancSplit(t, index+1)
+//@   loop 0 use forall t int :: ancBelow(t, index+1)
+//@   loop 0 decreases max - index
+
+// ---- writer: clean set (sort + dedup) ----
+// sort.Slice with an integer `<` comparator is a trusted model: result ordered, same elements (option sort-members).
+
+//@ func getCleanSet
+//@   mode int
+//@   option sort-members-bwd
+//@   modifies entries
+//@   ensures fresh(result) && len(result) <= len(entries)
+//@   ensures forall a, b int :: 0 <= a && a < b && b < len(result) ==> result[a] < result[b]
+//@   ensures forall b int :: 0 <= b && b < len(entries) ==> exists a int :: 0 <= a && a < len(result) && result[a] == old(entries[b])
+//@   loop 0 invariant 0 <= i && i <= len(entries) && len(out) <= i && (i > 0 ==> len(out) >= 1) && fresh(out)
+//@   loop 0 invariant i > 0 ==> out[len(out)-1] == entries[i-1]
+//@   loop 0 invariant forall a, b int :: 0 <= a && a < b && b < len(entries) ==> entries[a] <= entries[b]
+//@   loop 0 invariant forall b int :: 0 <= b && b < len(entries) ==> exists c int :: 0 <= c && c < len(entries) && entries[c] == old(entries[b])
+//@   loop 0 invariant forall a, b int :: 0 <= a && a < b && b < len(out) ==> out[a] < out[b]
+//@   loop 0 invariant forall b int :: 0 <= b && b < i ==> exists a int :: 0 <= a && a < len(out) && out[a] == entries[b]
+//@   loop 0 decreases len(entries) - i
